@@ -33,7 +33,9 @@ pub fn fill_rom(core: &mut Core, banks: usize) {
   put(rom, 0x0000, &[0xc3, 0x50, 0x01]); // a stray RET to 0 goes back to the first entry
   put(rom, 0x0008, &[0x0c, 0xc9]); // RST 08: INC C ; RET
   // a block that runs up to the end of bank 0
-  put(rom, 0x3ff8, &[0x3e, 0x77, 0x04, 0x0c, 0x14, 0x1c, 0x00, 0x00]);
+  // (its last instruction is the three-byte LD BC,nn at 0x3FFD..0x3FFF: the next instruction starts at 0x4000, in the
+  // other region, where the block must end although that address is translatable)
+  put(rom, 0x3ff8, &[0x3e, 0x77, 0x04, 0x0c, 0x14, 0x01, 0x34, 0x12]);
   for b in 1..banks {
     for k in 0..N_ENTRY {
       let at = b * 0x4000 + k * 0x40;
@@ -154,8 +156,9 @@ pub fn run(_sub: &str, opts: &Opts, w: &mut dyn Write) {
   }
   let mut rng = Rng::new(opts.seed ^ 0xc03);
   let (shard, nshards) = opts.shard();
-  let cfgs: [(u8, u8, u8); 4] = [(0x01, 5, 0), (0x11, 4, 2), (0x03, 1, 3), (0x13, 6, 3)];
-  let n = if opts.thorough { 2500 } else { 75 };
+  // the last two are two-bank cartridges with a controller: every even bank number maps bank 0 into the window
+  let cfgs: [(u8, u8, u8); 6] = [(0x01, 5, 0), (0x11, 4, 2), (0x03, 1, 3), (0x13, 6, 3), (0x01, 0, 0), (0x13, 0, 3)];
+  let n = if opts.thorough { 1700 } else { 50 };
   let len = if opts.thorough { 400 } else { 120 };
   let mut idx = 0usize;
   for &cfg in cfgs.iter() { for _ in 0..n {
